@@ -21,6 +21,7 @@ import RosuModel.Model.PerfCalcWire
 import RosuModel.Model.OsuSkillWire
 import RosuModel.Model.FullPerfWire
 import RosuModel.Model.PipelineOsuWire
+import RosuModel.Model.PipelinePerfWire
 import RosuModel.Model.SliderEventsWire
 import RosuModel.Model.ManiaPatternWire
 import RosuModel.Model.ConvOsuWire
@@ -97,6 +98,7 @@ def handle (line : String) : String :=
   | ["CSKILL", rate, cs, take, objs] => SkillWire.handleCSKILL rate cs take objs
   | "OSK" :: args => PerfCalc.handleOSK args
   | "FP" :: args => FullPerf.handleFP args
+  | "PIPEP" :: args => PipelinePerf.Wire.handlePIPEP args
   | ["SLEV", st, sd, v, td, tot, sp] => SliderEvents.handleSLEV st sd v td tot sp
   | ["OSLD", v, sm, tr, sl] => SliderEvents.handleOSLD v sm tr sl
   | ["JUICE", v, sm, tr, objs] => SliderEvents.handleJUICE v sm tr objs
